@@ -6,30 +6,43 @@ Open Scope Z_scope.
 Local Arguments Z.geb : simpl never.
 Local Arguments Z.gtb : simpl never.
 
+Lemma down_decide_unfold w ri :
+  down_decide w ri =
+  if is_serial (ri_consistency ri) then down_serial w ri
+  else down_nonserial (ri_consistency ri) w ri.
+Proof. unfold down_decide. destruct (ri_consistency ri); reflexivity. Qed.
+
+Lemma consistency_eqb_eq a b : consistency_eqb a b = true <-> a = b.
+Proof. split; [destruct a, b; cbn; congruence | intros ->; destruct b; reflexivity]. Qed.
+
 Ltac break_if :=
   match goal with
   | H : context [if ?b then _ else _] |- _ => destruct b eqn:?
   | |- context [if ?b then _ else _] => destruct b eqn:?
   end.
 
-(* open a decision of any of the three sessions into its leaves *)
-Ltac open_decide s ri :=
-  destruct s as [[u r w] | w | ]; destruct ri as [e i c];
-  unfold decide, default_decide, down_decide, max_likely_to_work_cl in *;
-  cbn [ri_error ri_idempotent ri_consistency was_unavailable_retry was_read_timeout_retry
-       was_write_timeout_retry] in *;
-  destruct c; cbn [is_serial consistency_eqb orb] in *;
-  destruct e as [ | | | | | | | db | | | | ]; try destruct db;
-  repeat match goal with x : write_type |- _ => destruct x end.
+Ltac pair_inv :=
+  repeat match goal with H : (_, _) = (_, _) |- _ => inversion H; clear H; subst end.
 
+(* finish a leaf whose remaining facts are about booleans *)
 Ltac bools := repeat match goal with b : bool |- _ => destruct b end;
   cbn [negb andb orb] in *; congruence.
 
-Ltac leaves := repeat (cbn [negb andb orb fst snd] in *; try break_if);
-  repeat match goal with H : (_, _) = (_, _) |- _ => inversion H; clear H; subst end;
-  try solve [exfalso; bools].
+(* open a decision of any of the three sessions: session kind, serial or not, error *)
+Ltac open_decide s ri :=
+  destruct s as [[u r w] | w | ]; destruct ri as [e i c]; cbn [decide] in *;
+  [ unfold default_decide in *
+  | rewrite down_decide_unfold in *;
+    unfold down_serial, down_nonserial, max_likely_to_work_cl in *
+  | ];
+  cbn [ri_error ri_idempotent ri_consistency was_unavailable_retry was_read_timeout_retry
+       was_write_timeout_retry] in *;
+  destruct (is_serial c) eqn:Hser;
+  destruct e as [ | | | | | | | db | | | | ]; try destruct db;
+  repeat match goal with x : write_type |- _ => destruct x end.
 
-(* -- the safe-resend rule, per decision ---------------------------------- *)
+Ltac leaves := repeat (cbn [negb andb orb fst snd] in *; try break_if); pair_inv.
+
 Lemma decide_safe s ri s' d :
   decide s ri = (s', d) -> ri_idempotent ri = false -> is_retry d = true ->
   safe_errorb (ri_error ri) = true.
@@ -44,14 +57,12 @@ Lemma decide_named_unsafe s ri s' d :
   named_unsafe_errorb (ri_error ri) = true -> d = DontRetry.
 Proof.
   intros H Hi Hr. open_decide s ri; cbn [ri_idempotent] in Hi; subst;
-    cbn [named_unsafe_errorb] in Hr; try discriminate; leaves; reflexivity.
+    cbn [named_unsafe_errorb] in Hr; try discriminate; leaves; try reflexivity; bools.
 Qed.
 
 Lemma safe_named_disjoint e : safe_errorb e = true -> named_unsafe_errorb e = false.
 Proof. destruct e as [ | | | | | | | db | | | | ]; try destruct db; cbn; congruence. Qed.
 
-(* IgnoreWriteError (reporting a timed-out write as done) only for idempotent requests,
-   only from Downgrading, only on a write timeout of a SIMPLE/BATCH write some replica acked *)
 Lemma decide_ignore s ri s' d :
   decide s ri = (s', d) -> d = IgnoreWriteError ->
   ri_idempotent ri = true /\ (exists w, s = SDowngrading w) /\
@@ -77,11 +88,16 @@ Proof.
   inversion H; auto.
 Qed.
 
-(* Default and Fallthrough never carry a consistency *)
 Lemma decide_carried_none s ri s' d :
   decide s ri = (s', d) -> (forall w, s <> SDowngrading w) -> carried d = None.
 Proof.
-  intros H Hs. open_decide s ri; try (exfalso; eapply Hs; reflexivity); leaves; reflexivity.
+  intros H Hs. destruct s as [ds | w | ]; [ | exfalso; eapply Hs; reflexivity | ].
+  - destruct ds as [u r w]; destruct ri as [e i c]; cbn [decide] in H. unfold default_decide in H.
+    cbn [ri_error ri_idempotent ri_consistency was_unavailable_retry was_read_timeout_retry
+         was_write_timeout_retry] in H.
+    destruct (is_serial c); destruct e as [ | | | | | | | db | | | | ]; try destruct db;
+      leaves; reflexivity.
+  - cbn in H. inversion H. reflexivity.
 Qed.
 
 (* -- sessions keep their policy ------------------------------------------ *)
@@ -109,8 +125,10 @@ Lemma decide_budget s ri s' d :
   (if is_same_target d then S (budget s') <= budget s else budget s' <= budget s)%nat.
 Proof.
   intros H. open_decide s ri; leaves;
-    cbn [is_same_target budget was_read_timeout_retry was_write_timeout_retry Nat.add] in *;
-    try lia; try discriminate.
+    cbn [is_same_target budget was_read_timeout_retry was_write_timeout_retry] in *;
+    try lia;
+    repeat match goal with b : bool |- _ => destruct b end; cbn [negb andb orb] in *;
+    try discriminate; cbn; lia.
 Qed.
 
 Lemma new_session_budget p : budget (new_session p) = same_target_budget p.
@@ -148,33 +166,36 @@ Proof.
 Qed.
 
 (* -- Downgrading ---------------------------------------------------------- *)
+Ltac open_down ri :=
+  destruct ri as [e i c]; rewrite down_decide_unfold in *;
+  unfold down_serial, down_nonserial, max_likely_to_work_cl in *;
+  cbn [ri_error ri_idempotent ri_consistency] in *;
+  destruct (is_serial c) eqn:Hser;
+  destruct e as [ | | | | | | | db | | | | ]; try destruct db;
+  repeat match goal with x : write_type |- _ => destruct x end.
+
+Lemma down_decide_flag w ri w' d : down_decide w ri = (w', d) -> w = true -> w' = true.
+Proof. intros H ->. open_down ri; leaves; reflexivity. Qed.
+
 Lemma decide_down_shape w ri s' d :
-  decide (SDowngrading w) ri = (s', d) -> exists w', s' = SDowngrading w' /\ (w = true -> w' = true).
+  decide (SDowngrading w) ri = (s', d) ->
+  exists w', s' = SDowngrading w' /\ (w = true -> w' = true).
 Proof.
   cbn [decide]. destruct (down_decide w ri) as [w' d'] eqn:E. intros H; inversion H; subst.
-  exists w'. split; [reflexivity|]. intros ->.
-  revert E. destruct ri as [e i c]. unfold down_decide. cbn [ri_error ri_idempotent ri_consistency].
-  destruct c; destruct e as [ | | | | | | | db | | | | ]; try destruct db;
-    cbn [negb orb]; intros E; inversion E; reflexivity.
+  exists w'. split; [reflexivity|]. exact (down_decide_flag w ri w' d E).
 Qed.
 
 (* once the single retry is spent no consistency is carried any more *)
+Lemma down_decide_spent ri w' d : down_decide true ri = (w', d) -> carried d = None.
+Proof. intros H. open_down ri; leaves; reflexivity. Qed.
+
 Lemma decide_down_spent ri s' d :
   decide (SDowngrading true) ri = (s', d) -> carried d = None.
 Proof.
   cbn [decide]. destruct (down_decide true ri) as [w' d'] eqn:E. intros H; inversion H; subst.
-  revert E. destruct ri as [e i c]. unfold down_decide. cbn [ri_error ri_idempotent ri_consistency].
-  destruct c; destruct e as [ | | | | | | | db | | | | ]; try destruct db;
-    cbn [negb orb]; intros E; inversion E; try reflexivity; destruct i; reflexivity.
+  exact (down_decide_spent ri w' d E).
 Qed.
 
-(* Whenever Downgrading carries a new consistency c':
-   - the session had not retried yet and is spent afterwards; the attempt was not serial;
-   - the decision is RetrySameTarget;
-   - the error is Unavailable, or ReadTimeout with received < required, or (idempotent
-     only) WriteTimeout of an UNLOGGED_BATCH; call known_ok the alive/received count;
-   - c' is ONE, TWO or THREE and asks for at most known_ok replicas -- except the
-     EACH_QUORUM rule (JAVA-1005): known_ok <= 0 at EACH_QUORUM gives ONE. *)
 Lemma down_decide_carried w ri w' d c' :
   down_decide w ri = (w', d) -> carried d = Some c' ->
   w = false /\ w' = true /\ is_serial (ri_consistency ri) = false /\
@@ -188,17 +209,24 @@ Lemma down_decide_carried w ri w' d c' :
     /\ exists n, cl_count c' = Some n
          /\ (n <= known_ok \/ (ri_consistency ri = CEachQuorum /\ c' = COne /\ known_ok <= 0)).
 Proof.
-  intros H Hc. destruct ri as [e i c].
-  unfold down_decide, max_likely_to_work_cl in H.
-  cbn [ri_error ri_idempotent ri_consistency] in *.
-  destruct c; cbn [is_serial consistency_eqb orb] in *;
-  destruct e as [ | | | | | | | db | | | | ]; try destruct db;
-    repeat match goal with x : write_type |- _ => destruct x end; leaves; cbn [carried] in Hc; try discriminate;
-    inversion Hc; subst;
+  intros H Hc. open_down ri; leaves; cbn [carried] in Hc; try discriminate;
+    inversion Hc; subst; clear Hc;
+    repeat match goal with
+           | H : _ || consistency_eqb _ _ = true |- _ =>
+               apply orb_true_iff in H; rewrite consistency_eqb_eq in H
+           end;
+    repeat match goal with b : bool |- _ => destruct b end; cbn [negb orb] in *; try discriminate;
     (split; [reflexivity | split; [reflexivity | split; [reflexivity | split; [reflexivity |]]]]);
     do 2 eexists;
     (split; [ first [ left; reflexivity
                     | right; left; eexists; split; [reflexivity | lia]
                     | right; right; split; reflexivity ]
-            | eexists; split; [reflexivity | first [ left; lia | right; repeat split; lia ] ] ]).
+            | eexists; split; [reflexivity | cbn [ri_consistency] ] ]);
+    try lia;
+    match goal with
+    | H : _ \/ _ = CEachQuorum |- _ \/ (_ /\ _ /\ ?k <= 0) =>
+        destruct H as [H | H];
+        [ left; lia
+        | destruct (Z_le_gt_dec k 0); [ right; repeat split; [exact H | assumption] | left; lia ] ]
+    end.
 Qed.
